@@ -709,7 +709,7 @@ CHAIN = {
 }
 CLASS_TYPE = {"SymmetricKey": "SymmetricKey", "PublicKey": "PublicKey", "PrivateKey": "PrivateKey",
               "SplitKey": "SplitKey", "Certificate": "X509Certificate", "SecretData": "SecretData",
-              "OpaqueData": "OpaqueObject"}
+              "OpaqueData": "OpaqueData"}
 
 
 def _enum_name(enum_cls, v):
